@@ -9,7 +9,16 @@ WEIGHTS = {'decode': 13, 'enumerate': 2, 'n_valid': 1, 'stats': 1, 'fix': 3, 'fr
 
 
 def generate(seed, tier='quick', index=0):
-    return ss.generate(PROPERTY, seed, tier, WEIGHTS, n_ops=(6, 18), conn_share=0.2)
+    t = ss.generate(PROPERTY, seed, tier, WEIGHTS, n_ops=(6, 18), conn_share=0.2)
+    # a quarter of the sessions run on the FAST selection-choice encoder (processor and twin alike): its decode path has
+    # its own memoisation (imputation cache, exclusion set) that fix / free operations interact with
+    import random
+    if random.Random(seed ^ 0x5EED).random() < 0.25:
+        t['encoder'] = 'fast'
+        # without connection choices: with them the unchanged fast encoder is history dependent in many ways (the
+        # exclusion set filled by infeasible connection scenarios; known finding C05-known-3, DESIGN.md 9.3)
+        t['spec'].pop('conn', None)
+    return t
 
 
 def execute(trace):
@@ -19,7 +28,7 @@ def execute(trace):
 RULE = ('Each run generates a DSG spec (selection choices, incompatibilities, design-variable and metric nodes under '
         'permanent and conditional nodes, in 20% of the runs one or two connection choices) and a history of 6-18 operations over {decode(x, create), enumerate, n_valid, '
         'statistics, fix, free, mutate/evaluate a returned instance, pickle round trip, time-limited enumeration killed at '
-        'a delivery point}; after every step a processor freshly built from the same spec (fresh node identities) with the '
+        'a delivery point}; a quarter of the sessions use the FAST encoder for processor and twin; after every step a processor freshly built from the same spec (fresh node identities) with the '
         'same fixed values must answer identically, and every instance ever returned is re-observed at the end. '
         'evaluations = runs completed; a run is non-trivial if it contains >= 1 state-carrying step (fix, free, mutate, '
         'evaluate, pickle, interrupted enumeration) and >= 1 checked decode or enumeration; distinct = distinct (spec, ops).')
